@@ -370,14 +370,20 @@ theorem copyLike_vcs {w w' : World} {sid oid : Nat} {R : Mat} (he : w.copyLike s
       · cases he
       · split at he
         · cases he
-        · rename_i w1 hw1
-          cases he
-          exact setPhases_vcs (w' := w1) hw1
-    · split at he
-      · cases he
+        · cases he; rfl
       · split at he
         · cases he
         · cases he; rfl
+    · split at he
+      · cases he
+      · rename_i w1 hw1
+        have h1 : w1.c.vcs = w.c.vcs := by
+          split at hw1
+          · cases hw1; rfl
+          · exact expandPhases_vcs hw1
+        split at he
+        · cases he
+        · cases he; exact h1
     · split at he
       · cases he
       · rename_i w1 hw1
@@ -414,9 +420,14 @@ theorem mixInto_vcs {w w' : World} {sid : Nat} {others : List Char} {P : Rat} {R
   · cases he
   · split at he
     · cases he
-    · split at he
+    · rename_i w1 hw1
+      have h1 : w1.c.vcs = w.c.vcs := by
+        split at hw1
+        · cases hw1; rfl
+        · exact expandPhases_vcs hw1
+      split at he
       · cases he
-      · cases he; rfl
+      · cases he; exact h1
 
 theorem link_c {w w' : World} {sid oid : Nat} {f p t : Bool} (he : w.link sid oid f p t = .ok w') :
     w'.c = w.c := by
